@@ -18,13 +18,18 @@ fn names(ms: &[Move]) -> Vec<String> {
 }
 
 /// the argument vector of a `position` command, exactly as the UCI loop splits it
+thread_local! {
+    /// half-move clock and full-move number written into the FENs of `position_command` (default 0 1)
+    pub static FEN_COUNTERS: std::cell::Cell<(u32, u32)> = std::cell::Cell::new((0, 1));
+}
 pub fn position_command(start: &Pos, moves: &[String], use_startpos: bool) -> Vec<String> {
     let mut v = vec!["position".to_string()];
     if use_startpos {
         v.push("startpos".into());
     } else {
         v.push("fen".into());
-        for f in start.fen().split(' ') {
+        let (h, f) = FEN_COUNTERS.with(|c| c.get());
+        for f in start.fen_with(h, f).split(' ') {
             v.push(f.to_string());
         }
     }
